@@ -261,7 +261,8 @@ def corr_circuit(ck, n, thorough=False):
                 nontrivial=d['lines'] >= 4,
                 sample={k: (v if k != 'circuit' else circ.dump_net(pickle.loads(base64.b64decode(v)))) for k, v in cs.items()},
                 tag=['circuit', f"strip:{cs['strip']}", f"reuse:{cs['reuse']}", f"multi:{cs['multi']}", f"cuda:{cs['cuda']}",
-                     'caps:' + (str(cs['caps']) if isinstance(cs['caps'], int) else 'perline'), 'overflow' if ovf else 'no-overflow'])
+                     'caps:' + (str(cs['caps']) if isinstance(cs['caps'], int) else 'perline'), 'overflow' if ovf else 'no-overflow',
+                     common.allcirc_hyp(ck, pickle.loads(base64.b64decode(cs['circuit'])), [cs['strip']], 'C03')])   # hypotheses of wave_sim_end_to_end_all_circuits
         if not ok:
             ck.violation('wave-settle', 'WaveSim: initial/final value differs from the Boolean function of the inputs', cs, obs, exp)
 
